@@ -165,9 +165,10 @@ def check_bpm_value(ctx: Ctx, r: Rule, T) -> None:
     data = ("param", f.params()[1])
     r.inst(f"{f.qual}: bpm term")
     RAW = ("attr", data, "raw_bpm")
+    # int / int true division is correctly rounded for operands of any size (CPython long_true_divide); with a float on either
+    # side (1000.0, float(raw)) the integer is first rounded to a double, which is a second rounding for n > 2**53
     forms = [
-        ("binop", "/", ("call", ("builtin", "int"), (RAW,), ()), ("?or", ("const", 1000), ("const", 1000.0))),
-        ("binop", "/", ("call", ("builtin", "float"), (RAW,), ()), ("?or", ("const", 1000), ("const", 1000.0))),
+        ("binop", "/", ("call", ("builtin", "int"), (RAW,), ()), ("?", "div")),
     ]
     n = 0
     for e in s.rets():
@@ -175,10 +176,15 @@ def check_bpm_value(ctx: Ctx, r: Rule, T) -> None:
             if t[0] == "call" and t[1][0] in ("clsparam", "class") and t[1][1] == BPMEVENT:
                 n += 1
                 bpm = dict(t[3]).get("bpm")
-                if bpm is None or not any(match(p, bpm) is not None for p in forms):
-                    fail(r, ctx, f, e.node, "tempo must be int(raw_bpm) / 1000 -- exactly one correctly rounded operation on exact "
-                                            "operands whose exact result is n/1000 (a sum of parts, a product with 0.001 or a string "
-                                            f"splice is not the nearest float / not n/1000 for every n); found {show(bpm)[:240] if bpm else None}")
+                okb = False
+                for p in forms:
+                    mb = match(p, bpm) if bpm is not None else None
+                    if mb is not None and mb["div"][0] == "const" and type(mb["div"][1]) is int and mb["div"][1] == 1000:
+                        okb = True
+                if not okb:
+                    fail(r, ctx, f, e.node, "tempo must be int(raw_bpm) / 1000 with the *integer* 1000 -- exactly one correctly rounded operation on exact "
+                                            "operands whose exact result is n/1000 (a sum of parts, a product with 0.001, a string splice, or a "
+                                            f"float operand such as 1000.0 / float(raw) is not the nearest float of n/1000 for every n); found {show(bpm)[:240] if bpm else None}")
     if n == 0:
         fail(r, ctx, f, f.node, "no BPMEvent construction found in the tempo builder")
     c = ctx.cls(BPMEVENT)
